@@ -68,6 +68,7 @@ fn parse_case(case: &str) -> (u8, Vec<FileSpec>)
 	let mut files = Vec::new();
 	for t in it
 	{
+		if t.starts_with("W=") { continue; }   // the image the generator intends (judged by the driver)
 		let mut p = t.splitn(3, ':');
 		let kind = p.next().unwrap();
 		let name = p.next().unwrap().to_string();
@@ -175,24 +176,31 @@ struct Builder<'a> { rng: &'a mut Rng, files: Vec<FileSpec>, nbin: u32 }
 impl<'a> Builder<'a>
 {
 	/// statements producing exactly `len` bytes at the current address
-	fn data(&mut self, len: u64, dir: &str) -> String
+	fn data(&mut self, len: u64, dir: &str) -> (String, Vec<u8>)
 	{
 		let mut s = String::new();
+		let mut w: Vec<u8> = Vec::new();   // the bytes these statements stand for, written down by the generator itself
 		let mut left = len as usize;
 		while left > 0
 		{
 			let k = self.rng.below(9);
 			match k
 			{
-				0 => { s.push_str(&format!(".du8 {};\n", self.rng.below(256))); left -= 1; },
-				1 if left >= 2 => { s.push_str(&format!(".du16 0x{:X};\n", self.rng.below(65536))); left -= 2; },
-				2 if left >= 4 => { s.push_str(&format!(".du32 0x{:X};\n", self.rng.next() as u32)); left -= 4; },
-				3 if left >= 2 => { s.push_str(["NOP;\n", "MOVS R0, 1;\n", "BX LR;\n", "ADDS R1, R1, 4;\n", "WFI;\n"][self.rng.below(5) as usize]); left -= 2; },
+				0 => { let v = self.rng.below(256); s.push_str(&format!(".du8 {};\n", v)); w.push(v as u8); left -= 1; },
+				1 if left >= 2 => { let v = self.rng.below(65536) as u16; s.push_str(&format!(".du16 0x{:X};\n", v)); w.extend_from_slice(&v.to_le_bytes()); left -= 2; },
+				2 if left >= 4 => { let v = self.rng.next() as u32; s.push_str(&format!(".du32 0x{:X};\n", v)); w.extend_from_slice(&v.to_le_bytes()); left -= 4; },
+				3 if left >= 2 =>
+				{
+					let k = self.rng.below(5) as usize;
+					s.push_str(["NOP;\n", "MOVS R0, 1;\n", "BX LR;\n", "ADDS R1, R1, 4;\n", "WFI;\n"][k]);
+					w.extend_from_slice(&[0xBF00u16, 0x2001, 0x4770, 0x3104, 0xBF30][k].to_le_bytes());   // ARMv6-M encodings
+					left -= 2;
+				},
 				4 =>
 				{
 					let n = 1 + self.rng.below(left.min(40) as u64) as usize;
 					let txt: String = (0..n).map(|_| *self.rng.pick(&[b'a', b'Z', b'0', b'.', b'x', b'q', b'7']) as char).collect();
-					s.push_str(&format!(".dstr \"{}\";\n", txt)); left -= n;
+					s.push_str(&format!(".dstr \"{}\";\n", txt)); w.extend_from_slice(txt.as_bytes()); left -= n;
 				},
 				5 | 6 =>
 				{
@@ -200,7 +208,7 @@ impl<'a> Builder<'a>
 					let b = self.rng.bytes(n);
 					let sep = if self.rng.chance(1, 2) { " " } else { "" };
 					let h: Vec<String> = b.iter().map(|x| if self.rng.chance(1, 2) { format!("{:02X}", x) } else { format!("{:02x}", x) }).collect();
-					s.push_str(&format!(".dhex \"{}\";\n", h.join(sep))); left -= n;
+					s.push_str(&format!(".dhex \"{}\";\n", h.join(sep))); w.extend_from_slice(&b); left -= n;
 				},
 				7 =>
 				{
@@ -208,18 +216,20 @@ impl<'a> Builder<'a>
 					self.nbin += 1;
 					let name = format!("d{}.bin", self.nbin);
 					let b = if self.rng.chance(1, 6) { vec![0u8; n] } else { self.rng.bytes(n) };
+					w.extend_from_slice(&b);
 					self.files.push(FileSpec{name: format!("{}{}", dir, name), text: false, data: b});
 					s.push_str(&format!(".dfile \"{}\";\n", name)); left -= n;
 				},
-				_ => { s.push_str(&format!(".du8 0x{:x};\n", self.rng.below(256))); left -= 1; },
+				_ => { let v = self.rng.below(256); s.push_str(&format!(".du8 0x{:x};\n", v)); w.push(v as u8); left -= 1; },
 			}
 		}
-		s
+		(s, w)
 	}
-	fn region(&mut self, r: Reg, dir: &str) -> String
+	fn region(&mut self, r: Reg, dir: &str) -> (String, Vec<u8>)
 	{
 		let a = match self.rng.below(4) { 0 => format!("0x{:X}", r.addr), 1 => format!("0x{:x}", r.addr), 2 => format!("{}", r.addr), _ => format!("0x{:08X}", r.addr) };
-		format!(".addr {};\n{}", a, self.data(r.len, dir))
+		let (t, w) = self.data(r.len, dir);
+		(format!(".addr {};\n{}", a, t), w)
 	}
 }
 
@@ -230,8 +240,14 @@ const FAILING: [&str; 9] = [
 
 /// a program for a layout: regions in the given (source) order, optionally spread over include files,
 /// optionally with one failing statement
-fn program(rng: &mut Rng, regs: &[Reg], use_includes: bool, fail: Option<&str>) -> Vec<FileSpec>
+fn program(rng: &mut Rng, regs: &[Reg], use_includes: bool, fail: Option<&str>) -> Vec<FileSpec> { program_w(rng, regs, use_includes, fail).0 }
+
+/// the same, together with the image the program stands for: every region's bytes at its address, as `first:hex,...`
+/// (ascending, touching regions merged) - `None` when regions overlap
+fn program_w(rng: &mut Rng, regs: &[Reg], use_includes: bool, fail: Option<&str>) -> (Vec<FileSpec>, Option<String>)
 {
+	let mut image: std::collections::BTreeMap<u64, u8> = std::collections::BTreeMap::new();
+	let mut clash = false;
 	let mut b = Builder{rng, files: vec![], nbin: 0};
 	let mut main = String::new();
 	if b.rng.chance(1, 3) { main.push_str("// generated layout\n"); }
@@ -243,17 +259,24 @@ fn program(rng: &mut Rng, regs: &[Reg], use_includes: bool, fail: Option<&str>) 
 		if use_includes && b.rng.chance(1, 2)
 		{
 			let (dir, name) = if b.rng.chance(1, 2) { ("sub/", format!("sub/inc{}.asm", i)) } else { ("", format!("inc{}.asm", i)) };
-			let body = b.region(*r, dir);
+			let (body, w) = b.region(*r, dir);
+			for (k, x) in w.iter().enumerate() { if image.insert(r.addr + k as u64, *x).is_some() { clash = true; } }
 			incs.push(FileSpec{name: name.clone(), text: true, data: body.into_bytes()});
 			main.push_str(&format!(".include \"{}\";\n", name));
 		}
-		else { let t = b.region(*r, ""); main.push_str(&t); }
+		else { let (t, w) = b.region(*r, ""); for (k, x) in w.iter().enumerate() { if image.insert(r.addr + k as u64, *x).is_some() { clash = true; } } main.push_str(&t); }
 	}
 	if fail_at == Some(regs.len()) { main.push_str(fail.unwrap()); }
 	let mut files = vec![FileSpec{name: "main.asm".into(), text: true, data: main.into_bytes()}];
 	files.extend(incs);
 	files.extend(b.files);
-	files
+	let w = if clash { None } else
+	{
+		let mut runs: Vec<(u64, Vec<u8>)> = vec![];
+		for (a, x) in image { match runs.last_mut() { Some((s0, d)) if *s0 + d.len() as u64 == a => d.push(x), _ => runs.push((a, vec![x])) } }
+		Some(if runs.is_empty() { "-".to_string() } else { runs.iter().map(|(a, d)| format!("{:x}:{}", a, hex_bytes(d))).collect::<Vec<_>>().join(",") })
+	};
+	(files, w)
 }
 
 const OFFS: [u64; 14] = [0, 0, 1, 2, 0x7F, 0x80, 0xF0, 0xFA, 0xFB, 0xFC, 0xFD, 0xFE, 0xFF, 0x100];
@@ -425,6 +448,22 @@ fn main()
 				let f2 = program(&mut crng, &regs, true, fail);
 				emit(fmt_case(o, &f2), &mut out, &mut runner);
 			}
+			// a boot block that already carries a checksum word - the right one, a wrong one, zero - still "places data at
+			// 0x100000FC..0x100000FF": refused whatever the word is (CRC-32/MPEG-2 computed here bit by bit)
+			for k in 0..(if thorough { 40 } else { 6 })
+			{
+				let body: Vec<u8> = if k == 0 { vec![0u8; 252] } else { rng.bytes(252) };
+				let mut crc: u32 = 0xFFFF_FFFF;
+				for &b in &body { crc ^= (b as u32) << 24; for _ in 0..8 { crc = if crc & 0x8000_0000 != 0 { (crc << 1) ^ 0x04C1_1DB7 } else { crc << 1 }; } }
+				for word in [crc, crc ^ 1, 0, crc.swap_bytes()]
+				{
+					let hex: Vec<String> = body.iter().map(|x| format!("{:02x}", x)).collect();
+					let tail = if k % 2 == 0 { format!(".du32 0x{:X};\n", word) } else { format!(".dhex \"{}\";\n", word.to_le_bytes().iter().map(|x| format!("{:02X}", x)).collect::<Vec<_>>().join(" ")) };
+					let text = format!(".addr 0x10000000;\n.dhex \"{}\";\n{}{}", hex.join(""), tail, if k % 3 == 0 { ".addr 0x10000100;\nNOP;\n" } else { "" });
+					let files = vec![FileSpec{name: "main.asm".into(), text: true, data: text.into_bytes()}];
+					emit(fmt_case(if k % 2 == 0 { 1 } else { 2 }, &files), &mut out, &mut runner);
+				}
+			}
 			// random part
 			let n = if thorough { 50000 } else { 2400 };
 			for _ in 0..n
@@ -435,8 +474,10 @@ fn main()
 				let fail = if rng.chance(1, 14) { Some(*rng.pick(&FAILING)) } else { None };
 				let inc = rng.chance(1, 3);
 				let o = match rng.below(10) { 0 => 0, 1 | 2 => 2, _ => 1 };
-				let files = program(&mut rng, &regs, inc, fail);
-				emit(fmt_case(o, &files), &mut out, &mut runner);
+				let (files, w) = program_w(&mut rng, &regs, inc, fail);
+				// a layout without overlaps and without a failing statement must assemble to exactly the bytes written down
+				let tag = match (&w, fail, overlap) { (Some(w), None, false) => format!(" W={}", w), _ => String::new() };
+				emit(format!("{}{}", fmt_case(o, &files), tag), &mut out, &mut runner);
 			}
 		},
 	}
